@@ -96,7 +96,8 @@ Definition declare_fault (cond : Z) : D Z :=
        else ret tt) ;;;
       (* report_fault: the callback of the configured kind *)
       emit (EvFault fh src seq cond progress) ;;;
-      ret fh
+      (* an abandoned transaction stops whatever it is doing: the running state machine call is unwound (F25-F27 repair) *)
+      if fh =? FH_ABANDON then raise E_ABANDONED else ret fh
     end
   end.
 
@@ -301,9 +302,12 @@ Definition handle_no_error_eof : D bool :=
     ok <- checksum_verify ;;
     if ok then ret true
     else
-      fh <- declare_fault C_CHECKSUM_FAILURE ;;
-      if negb (fh =? FH_IGNORE) then ret false
-      else (start_check_limit_handling ;;; ret false)
+      (* the fault was declared by the verification; only the configured handler is looked up here (F15 repair) *)
+      c <- gets d_cfg ;;
+      match get_fault_handler (l_faults c) C_CHECKSUM_FAILURE with
+      | Some fh => if fh =? FH_IGNORE then (start_check_limit_handling ;;; ret false) else ret false
+      | None => ret false
+      end
   else ret true.
 
 Definition handle_eof_pdu (cond : Z) (cksum : bytes) (fsize : Z) : D unit :=
@@ -566,6 +570,10 @@ Definition handle_waiting_for_finished_ack (again : D unit) (pkt : option pdu) :
 
 Definition step_is (v : Z) : D bool := s <- get_step ;; ret (s =? v).
 
+(* try: ... except _TransactionAbandoned: pass   (dest.py state_machine) *)
+Definition catch_abandoned (m : D unit) : D unit :=
+  catch m (fun e => if e =? E_ABANDONED then Some (ret tt) else None).
+
 (* __non_idle_fsm (dest.py:526-555); [fuel] bounds the nested state_machine() calls *)
 Fixpoint non_idle_fsm (fuel : nat) (pkt : option pdu) : D unit :=
   fsm_advancement ;;;
@@ -603,7 +611,7 @@ Fixpoint non_idle_fsm (fuel : nat) (pkt : option pdu) : D unit :=
     (handle_waiting_for_finished_ack
        (match fuel with
         | O => raise E_FUEL
-        | S k => s <- get ;; when (d_state s =? ST_BUSY) (non_idle_fsm k None)
+        | S k => catch_abandoned (s <- get ;; when (d_state s =? ST_BUSY) (non_idle_fsm k None))
         end) pkt).
 
 (* ---- admission (dest.py:433-455) *)
@@ -650,14 +658,15 @@ Definition check_inserted_packet (p : pdu) : D unit :=
 (* ---- public API *)
 Definition state_machine (pkt : option pdu) : D unit :=
   (match pkt with Some p => check_inserted_packet p | None => ret tt end) ;;;
-  s <- get ;;
-  stop <-
-    (if d_state s =? ST_IDLE then
-       idle_fsm pkt ;;; n <- gets d_ready ;; ret (0 <? n)
-     else ret false) ;;
-  if stop then ret tt else
-  s <- get ;;
-  when (d_state s =? ST_BUSY) (non_idle_fsm 3 pkt).
+  catch_abandoned
+    (s <- get ;;
+     stop <-
+       (if d_state s =? ST_IDLE then
+          idle_fsm pkt ;;; n <- gets d_ready ;; ret (0 <? n)
+        else ret false) ;;
+     if stop then ret tt else
+     s <- get ;;
+     when (d_state s =? ST_BUSY) (non_idle_fsm 3 pkt)).
 
 Definition get_next_packet : D (option pdu) :=
   s <- get ;;
